@@ -29,8 +29,72 @@ def _plistable(d):
     return d
 
 
-def content(kind, which):
+# ---- docset 1: values a real file of each type can hold beyond the plain strings / ints / booleans of D1 / D2
+NAN, INF = float("nan"), float("inf")
+E1 = {"f": NAN, "g": INF, "h": -INF, "big": 1e308, "tiny": 5e-324, "neg": -1, "z": 0.0, "i": 10 ** 30, "t": [1, [2, [3, []]]],
+      "s": "", "u": "\u2028 \U0001F600 \x7f", "k\nl": "multi\nline\n", "long": "ab" * 70, "#c": "# not a comment", "sp": "  lead",
+      "same": [NAN, INF, "x\ny"], "": "empty key", "1": 1}
+E2 = {"f": 1.5, "g": -INF, "h": NAN, "big": 1e308, "tiny": 0.0, "neg": -2, "z": -0.0, "i": -10 ** 30, "t": [1, [2, [4, 5, {}]]],
+      "s": " ", "u": "\u2028 \U0001F601 \x7f", "k\nl": "multi\nline2", "long": "ab" * 69 + "c", "#c": "#", "sp": "trail  ",
+      "same": [NAN, INF, "x\ny"], "": "", "2": 1, "n": NAN}
+XE1 = ('<?xml version="1.0"?>\n<!-- c --><r xmlns="urn:a" xmlns:p="urn:p" p:a="1" b="&#10;nl">lead<p:i>one</p:i>mid<!-- in --><i><![CDATA[<raw> & ]]></i>'
+       '<e/><u>\u00e9\U0001F600</u><d><d><d>deep</d></d></d>tail</r>')
+XE2 = ('<?xml version="1.0"?>\n<r xmlns="urn:b" xmlns:p="urn:p" p:a="2" c="&lt;">lead2<p:i>two</p:i><i><![CDATA[<raw2>]]></i>'
+       '<e>x</e><u>\u00e8</u><d><d>less</d></d><new a="1"/></r>')
+CE1 = 'a,"b,c","q""uote"\r\n1,,\u00e9\n"multi\nline",x\n\n,,\n'
+CE2 = 'a,"b;c","q""uot"\n1, ,\u00e8,extra\n"multi line",x\n'
+
+
+def _exotic(kind, which):
+    import datetime, yaml
+    d = E1 if which == 1 else E2
+    if kind in ("json", "json5"):
+        return json.dumps(d).encode()
+    if kind == "yaml":
+        extra = ({"bin": b"\x00\x01binary", 1: "int key", True: "bool key", 2.5: "float key", "alias": None} if which == 1 else
+                 {"bin": b"\x00\x02binary", 1: "int key2", False: "bool key", 2.5: "float", "alias": None})
+        dd = dict(d)
+        dd.update(extra)
+        shared = [1, {"a": 2}]
+        dd["alias"] = shared
+        dd["alias2"] = shared       # dumped as an anchor and an alias
+        return yaml.dump(dd).encode()
+    if kind == "csv":
+        return (CE1 if which == 1 else CE2).encode()
+    if kind in ("xml", "html"):
+        return (XE1 if which == 1 else XE2).encode()
+    if kind == "plist":
+        dd = dict(_plistable(d))
+        dd.update({"data": b"\x00\x01" * which, "dataeq": b"same"})
+        dd["i"] = 2 ** 63 - which        # plists hold 64-bit integers
+        return plistlib.dumps(dd) if which == 1 else plistlib.dumps(dd, fmt=plistlib.FMT_BINARY)
+    if kind == "pickle":
+        dd = dict(d)
+        dd.update({"tup": (1, 2, ("a",)) if which == 1 else (1, 3, ("b",), ()), "bytes": b"by\x00\xfftes\n" if which == 1 else b"by\x00tez",
+                   "byteseq": b"same", "none": None if which == 1 else 0, "nest": [(1,), (2, 3)] if which == 1 else [(1, 2), ()],
+                   5: "int key", None: "none key", "set": {1} if which == 1 else {2}, "fs": frozenset([1])})
+        return pickle.dumps(dd)
+    raise ValueError(kind)
+
+
+def _unsupported(kind, which):
+    """docset 2: VALID files holding a value graphtage has no node type for: the run must end in a reported error or a
+    diff, never in an internal error."""
+    import datetime, yaml
+    if kind == "yaml":
+        return yaml.dump({"a": 1, "when": datetime.date(2020, 1, which), "ts": datetime.datetime(2020, 1, 2, 3, 4, which), "set": {1, which},
+                          None: "null key"}).encode()
+    if kind == "plist":
+        return plistlib.dumps({"a": 1, "date": datetime.datetime(2020 + which, 1, 2, 3, 4, 5)})
+    return _exotic(kind, which)
+
+
+def content(kind, which, docset=0):
     import yaml
+    if docset == 1:
+        return _exotic(kind, which)
+    if docset == 2:
+        return _unsupported(kind, which)
     d = D1 if which == 1 else D2
     if kind in ("json", "json5"):
         return json.dumps(d).encode()
@@ -56,6 +120,9 @@ def all_configs():
                         for o in OPTS:
                             for same in (False, True):
                                 yield {"input": i, "format": f, "mode": m, "color": c, "cond": j, "opts": o, "same": same}
+                            yield {"input": i, "format": f, "mode": m, "color": c, "cond": j, "opts": o, "same": False, "docset": 1}
+                            if i in ("yaml", "plist") and not j and not o:
+                                yield {"input": i, "format": f, "mode": m, "color": c, "cond": j, "opts": o, "same": False, "docset": 2}
 
 
 def gen(rng, tier):
@@ -69,6 +136,11 @@ def gen(rng, tier):
                     chosen.append({"input": i, "format": f, "mode": m, "color": rng.choice(COLORS), "cond": rng.choice(COND), "opts": [], "same": rng.random() < 0.25})
                     for o in OPTS[1:]:
                         chosen.append({"input": i, "format": f, "mode": m, "color": rng.choice(COLORS), "cond": rng.choice(COND), "opts": o, "same": rng.random() < 0.25})
+                    for _ in range(2):
+                        chosen.append({"input": i, "format": f, "mode": m, "color": rng.choice(COLORS), "cond": rng.choice(COND), "opts": rng.choice(OPTS),
+                                       "same": False, "docset": 1})
+                    if i in ("yaml", "plist"):
+                        chosen.append({"input": i, "format": f, "mode": m, "color": rng.choice(COLORS), "cond": [], "opts": [], "same": False, "docset": 2})
         cfgs = chosen
     return cfgs
 
@@ -76,8 +148,8 @@ def gen(rng, tier):
 def impl(case):
     from harness import clirun
     ext = {"pickle": "pkl"}.get(case["input"], case["input"])
-    a = content(case["input"], 1)
-    b = a if case["same"] else content(case["input"], 2)
+    a = content(case["input"], 1, case.get("docset", 0))
+    b = a if case["same"] else content(case["input"], 2, case.get("docset", 0))
     files = {"a." + ext: {"b64": base64.b64encode(a).decode()}, "b." + ext: {"b64": base64.b64encode(b).decode()}}
     argv = ["--from-" + case["input"], "--to-" + case["input"], "--no-status"] + case["mode"] + case["color"] + case["cond"] + case.get("opts", [])
     if case["format"]:
@@ -125,7 +197,7 @@ def monitor(case, obs):
 
 def classify(case, obs):
     mode = {"": "full", "-e": "edits", "-d": "digest"}["".join(case["mode"])]
-    return f"{case['input']}->{_fmt(case)}:{mode}:{'+'.join(case['color'])}:{''.join(case.get('opts', [])) or 'defaults'}"
+    return f"{case['input']}->{_fmt(case)}:{mode}:{'+'.join(case['color'])}:{''.join(case.get('opts', [])) or 'defaults'}:docset{case.get('docset', 0)}"
 
 
 def nontrivial(case, obs):
